@@ -169,12 +169,10 @@ theorem C01_reads_identically_full (v : Ver) (T : OpTable) (F : FlagTable) (dec 
     (htbcOld : v.is310 = false → ∀ cs, LT.collapse false (LT.bytesToItems lt) = some cs → ∀ c ∈ cs, c.bc % 2 = 0)
     (hT : ∀ op, T.get op = .ext → op = EXTENDED_ARG)
     (hrne : Spec.read v T (.mk argc pos kw nl ss fl fln code lt fname name names varnames freevars cellvars consts) ≠ [])
-    (hfit : ∀ args0 args fuel, relax v d.blocks.flatten (blockStarts d.blocks 0) fuel args0 = .ok args →
-      ∀ p ∈ d.blocks.flatten.zip args, Encodable p.1 p.2)
     (henc : fromCodeDataGo v F enc d = .ok c') :
     Spec.read v T c' = Spec.read v T (.mk argc pos kw nl ss fl fln code lt fname name names varnames freevars cellvars consts) :=
   decoded_reads_identically_full v T F dec enc argc pos kw nl ss fl fln code lt fname name names varnames freevars cellvars consts d c'
-    hA h hlen hnodup hpos37 hcode hcomp hpre hmin hjs hcn hfn hvalid hteven htbytes htbc htbcOld hT hrne hfit henc
+    hA h hlen hnodup hpos37 hcode hcomp hpre hmin hjs hcn hfn hvalid hteven htbytes htbc htbcOld hT hrne henc
 
 /-- **`to_code()` returns on decoded data** (one nesting level: given that the decodings of the nested code objects
     encode).  Under the compiler facts of C02 and with every decoded jump designating an existing block: the operand tables
